@@ -59,12 +59,18 @@ func vCell(shape int) interface{} {
 		return OvsMap{GoMap: m}
 	case 12: // map uuid->string
 		return OvsMap{GoMap: map[interface{}]interface{}{UUID{GoUUID: rt.UUID()}: rt.String()}}
-	default: // map string->uuid
+	case 13: // map string->uuid
 		return OvsMap{GoMap: map[interface{}]interface{}{rt.String(): UUID{GoUUID: rt.UUID()}}}
+	case 14: // map whose value is a set of uuids (nested set inside a map)
+		return OvsMap{GoMap: map[interface{}]interface{}{rt.String(): OvsSet{GoSet: []interface{}{UUID{GoUUID: rt.UUID()}, UUID{GoUUID: rt.UUID()}}}}}
+	case 15: // map whose value is a set of strings
+		return OvsMap{GoMap: map[interface{}]interface{}{rt.String(): OvsSet{GoSet: []interface{}{rt.String(), rt.String()}}}}
+	default: // map whose value is the empty set
+		return OvsMap{GoMap: map[interface{}]interface{}{rt.String(): OvsSet{GoSet: []interface{}{}}}}
 	}
 }
 
-const vCellShapes = 14
+const vCellShapes = 17
 
 // vRowShapes bounds the cell shapes used inside rows of composite values (entries narrow it for the quick tier).
 var vRowShapes = vCellShapes
@@ -145,7 +151,7 @@ func VerifC12SetMapUUID() {
 		rt.Assert(len(back.GoSet) == len(v.GoSet), "C12 OvsSet: same number of elements")
 		rt.Assert(vCellEq(v, back), "C12 OvsSet round-trips")
 	case 1:
-		v := vCell(10 + rt.Choose(4)).(OvsMap)
+		v := vCell(10 + rt.Choose(7)).(OvsMap)
 		b, err := json.Marshal(v)
 		rt.Assert(err == nil, "C12 OvsMap encodes")
 		var back OvsMap
